@@ -5,8 +5,8 @@ META = {
     "property_id": "C32",
     "level": "model_checking",
     "technique": "TLA+ ledger spec (Ledger.tla: one action per balance-change reason, escrow for pre-paid gas, in-flight ether, frame snapshots, burn and mint accounts) model-checked with TLC; every OnBalanceChange/OnEnter/OnExit/tx/block event of random blocks executed by core.StateProcessor.Process validated against LedgerTrace.tla, with per-transaction audits of the real balances and full state-dump totals around every block",
-    "text": "Ledger.tla keeps every account's balance, the burned and minted totals, the gas money in escrow and the ether in flight inside a transfer, with one action per reason for which block execution changes a balance (gas purchase, gas return, tip, transfer, self-destruct sweep and burn, withdrawal, block reward) and exact restoration on frame revert; invariant: accounts + burned + escrow + in flight - minted = genesis supply; transaction postconditions: the sender pays exactly gasUsed*price + blob fee (+ value through the top frame), the fee recipient receives exactly gasUsed*tip, base fee and blob fee are burned. TLC checks conservation on all interleavings of a small model. The driver generates random chains (value-moving contracts, creations with endowment, self-destructs, failing/reverting transactions, legacy/access-list/dynamic-fee/blob transactions, withdrawals, proof-of-work rewards) under every rule set Frontier..Bogota, replays every block through StateProcessor.Process with a tracer and TLC validates every event; every balance change must start from the ledger's balance for that account (previous values come from the real state), real balances are audited after every transaction and the sum over a full dump of the state is compared before and after every block.",
-    "note": "Trusts TLC, the balance hooks of the hooked StateDB and the event projection in harness/cmd/c32. Amounts are kept below 2^31 wei (tiny balances and prices); block rewards are carried as whole units of 1/32 ether in a second ledger dimension. Uncle rewards, the DAO fork and EIP-7702 transactions are not generated.",
+    "text": "Ledger.tla keeps every account's balance, the burned and minted totals, the gas money in escrow and the ether in flight inside a transfer, with one action per reason for which block execution changes a balance (gas purchase, gas return, tip, transfer, self-destruct sweep and burn, withdrawal, block reward) and exact restoration on frame revert; invariant: accounts + burned + escrow + in flight - minted = genesis supply; transaction postconditions: the sender pays exactly gasUsed*price + blob fee (+ value through the top frame), the fee recipient receives exactly gasUsed*tip, base fee and blob fee are burned. TLC checks conservation on all interleavings of a small model. The driver generates random chains (value-moving contracts, creations with endowment, self-destructs, failing/reverting transactions, legacy/access-list/dynamic-fee/blob transactions, withdrawals, proof-of-work block, uncle and nephew rewards) under every rule set Frontier..Bogota, replays every block through StateProcessor.Process with a tracer and TLC validates every event; every balance change must start from the ledger's balance for that account (previous values come from the real state), real balances are audited after every transaction and the sum over a full dump of the state is compared before and after every block.",
+    "note": "Trusts TLC, the balance hooks of the hooked StateDB and the event projection in harness/cmd/c32. Amounts are kept below 2^31 wei (tiny balances and prices); block rewards are carried as whole units of 1/32 ether in a second ledger dimension. Proof-of-work chains include uncles (distances 1 and 2). The DAO fork and EIP-7702 transactions are not generated.",
     "design_ref": "3.5 C32",
 }
 
@@ -28,4 +28,4 @@ def run(ctx):
                              consumed + 1, (" (invariant %s)" % r.violated) if r.violated else "",
                              (": broken rule " + ",".join(rules)) if rules else ""))
     return ctx.finish(rule="MC: all interleavings of the ledger actions over 3 accounts and tiny amounts; V: random chains x every rule set, every balance change, frame and transaction event, audits after every transaction, dump totals around every block",
-                      assumptions=["amounts < 2^31 wei; rewards in whole units of 1/32 ether", "no uncles, no DAO fork, no EIP-7702 transactions"])
+                      assumptions=["amounts < 2^31 wei; rewards in whole units of 1/32 ether", "no DAO fork, no EIP-7702 transactions"])
